@@ -186,6 +186,13 @@ def run(ck):
                 if any(("arg", i) in o for i in pargs) and any(a[0] == "field" for a in o) and not any(a[0] == "call" and a[1].endswith("verify_scalars") for a in o):
                     ck.ob("COV", pth, "proof-component-truncated@%s" % ff["name"], False,
                           "a vector that is part of the proof is cut with %s before use: the remaining elements are not verified and can be altered or appended freely" % ff["name"], g.loc(bi))
+            # a one-sided bound is harmless next to an exact test of the same length (e.g. an overflow guard before `1 << k`)
+            exact_elsewhere = False
+            for cx in rules.comparisons(g):
+                rel0, _d0 = rules.cmp_rejects(g, cx)
+                o0 = g.origins(cx["a"], deep=True) | g.origins(cx["b"], deep=True)
+                if rel0 == "Ne" and any(a[0] == "call" and a[1].endswith("::len") for a in o0) and any(("arg", i) in o0 for i in pargs):
+                    exact_elsewhere = True
             for cx in rules.comparisons(g):
                 oa = g.origins(cx["a"], deep=True)
                 ob = g.origins(cx["b"], deep=True)
@@ -195,6 +202,9 @@ def run(ck):
                         if rel is None:
                             continue
                         ncmp += 1
+                        if rel != "Ne" and exact_elsewhere:
+                            ck.ob("CMP", pth, "proof-length-exact@bb%d" % cx["bb"], True, "one-sided bound next to an exact test of the same length", g.loc(cx["bb"]), nontrivial=False)
+                            continue
                         ck.ob("CMP", pth, "proof-length-exact@bb%d" % cx["bb"], rel == "Ne",
                               "the length of a proof vector is compared for equality (rejects when Ne)" if rel == "Ne" else
                               "the length of a proof vector is only bounded (rejects when %s): a proof with surplus elements is not rejected here" % rel, g.loc(cx["bb"]))
